@@ -46,7 +46,8 @@ func (c06) Info() core.Info {
 		Title: "No query text and no data can crash the library",
 		Level: "exploration",
 		Rule: "three exhaustive families: (1) ALL token strings of length <= 5 (thorough: 6) over a 24-token alphabet are parsed and planned; those that build are executed; (2) all valid statements of the C03 / C05 / C09 / C12 pools at their quick bounds, plus self- and mutually-referential aliases, zero-argument calls of every scalar and aggregate function, every function applied to every value kind (text, integer, float, Boolean, list, JSON, indexed JSON), out-of-range substr / index arguments; (3) all single-token edits of a statement corpus, and parametrised long inputs (nesting depth and length 10/100/1000/4000 with the error early or late); each executed over 8 stores (empty, numeric, text, CSV, JSON with mixed member types, non-UTF-8 bytes, int64/float extremes, 3-byte keys) in row mode and in batches of 1, 2 and 32; every returned error is rendered unbound and bound to the query (paddings 0 and 7, with leading / trailing blanks). " +
-			"Oracle: every step returns; no panic (recovered and recorded), no fatal runtime error (the isolated worker process dies: journalled case), no watchdog expiry. Non-trivial: the statement reaches execution, or an error reaches rendering. Distinct: (query, store, mode, B).",
+			"Oracle: every step returns; no panic (recovered and recorded), no fatal runtime error (the isolated worker process dies: journalled case), no watchdog expiry. Non-trivial: the statement reaches execution, or an error reaches rendering. Distinct: (query, store, mode, B)." +
+			" Also: 21 `~=` patterns that do not compile or are unusual in seven statement shapes plus patterns taken from the data (every statement meets every store in both modes within one process); cycles of bare field names entered from a field, the filter, ORDER BY and GROUP BY.",
 		Assumptions:      []string{"inputs up to 4 KB (the property says 'a few kilobytes')", "coverage-guided mutation is replaced by complete enumeration of short token strings and of single-edit neighbourhoods"},
 		CrashIsViolation: true,
 	}
